@@ -62,6 +62,7 @@ struct Client {
   uint32_t next_serial = 1;
   std::string unique;              // from the Hello reply (observed)
   uint32_t hello_serial = 0;
+  bool asked_monitor = false;      // sent BecomeMonitor: from now on replies in its stream may be other people's
   bool stalled = false;            // does not drain at check points
   bool hostile = false;            // raw-bytes client: not flushed at check points
   std::string raw_handshake;       // bytes a hostile client wrote before its BEGIN
